@@ -204,6 +204,42 @@ theorem consistentB_sound (s : Store) (acl : Nat) (h : consistentB s acl = true)
     simp only [hh, storedInB_complete hroot, hne, ne_eq, not_false_eq_true, and_self, if_true] at this
     exact headsOkB_sound this
 
+/-- the boolean input check the driver evaluates on every AddAll input recorded from the real code
+implies the hypothesis `BatchOk` of `consistent_preserved_addAll` / `_deferred` (so on every explored
+real input those theorems apply) -/
+theorem batchOkB_sound (s : Store) (t : Nat) (chs : List NewChange) (heads : List Nat) (cs : Nat)
+    (h : batchOkB s t chs heads cs = true) : BatchOk s t chs heads cs := by
+  unfold batchOkB at h
+  simp only [Bool.and_eq_true, List.all_eq_true, Bool.or_eq_true, List.any_eq_true, decide_eq_true_eq,
+    Bool.not_eq_true', List.isEmpty_eq_false_iff, Option.isNone_iff_eq_none] at h
+  obtain ⟨⟨⟨⟨⟨⟨⟨⟨⟨h1, h2⟩, h3⟩, h4⟩, h5⟩, h6⟩, h7⟩, h8⟩, h9⟩, h10⟩ := h
+  refine ⟨⟨h1, h2⟩, h3, ?_, ?_, h6, ?_, ?_, ?_, ?_⟩
+  · intro c hc p hp
+    rcases h4 c hc p hp with hb | ⟨c', hc', hid, ho⟩
+    · exact Or.inl (storedBeforeB_sound hb)
+    · exact Or.inr ⟨c', hc', hid, ho⟩
+  · intro c hc sn hsn
+    have := h5 c hc
+    rw [hsn] at this
+    simp only [Bool.or_eq_true, List.any_eq_true, Bool.and_eq_true, decide_eq_true_eq] at this
+    rcases this with hb | ⟨c', hc', hid, ho⟩
+    · exact Or.inl (storedBeforeB_sound hb)
+    · exact Or.inr ⟨c', hc', hid, ho⟩
+  · intro x hx
+    rcases h7 x hx with hb | ⟨c, hc, hid⟩
+    · exact Or.inl (storedInB_sound hb)
+    · exact Or.inr ⟨c, hc, hid⟩
+  · rcases h8 with hb | ⟨c, hc, hid⟩
+    · exact Or.inl (storedInB_sound hb)
+    · exact Or.inr ⟨c, hc, hid⟩
+  · rcases h9 with hb | ⟨c, hc, hid⟩
+    · exact Or.inl (storedInB_sound hb)
+    · exact Or.inr ⟨c, hc, hid⟩
+  · intro c hc hne
+    rcases h10 c hc with he | hn
+    · exact absurd he hne
+    · exact hn
+
 /-- together with `op_crash_atomic`: whatever boundary the process dies at, what is found on disk
 satisfies the predicate (given it did before and the input is well-formed) -/
 theorem crash_consistent_addAll (s : Store) (acl t : Nat) (chs : List NewChange) (heads : List Nat)
